@@ -213,17 +213,18 @@ Section CloneProofs.
 
   Theorem packclone_eq_libpack_l :
     in_place_name Name CMap pack_name -> in_place_rr Name Body CMap pack_rr ->
-    prefix_determined_name Name CMap pack_name -> prefix_determined_rr Name Body CMap pack_rr ->
-    sized_name Name CMap pack_name q_len -> sized_rr Name Body CMap pack_rr rr_len ->
+    frame_name Name CMap pack_name -> frame_rr Name Body CMap pack_rr ->
+    len_bounds_name Name CMap pack_name q_len -> len_bounds_rr Name Body CMap pack_rr rr_len ->
+    len_suffices_name Name CMap pack_name q_len -> len_suffices_rr Name Body CMap pack_rr rr_len ->
     forall st m, Inv st ->
     fst (fst (PC st m)) = fst (LP m) /\
     (forallb admissible_rr (shapes Name Body (m_records Name Body m)) = true -> snd (PC st m) = m).
   Proof.
-    intros Hn Hr Hdn Hdr Hzn Hzr st m HI. unfold pack_clone.
+    intros Hn Hr Hdn Hdr Hbn Hbr Hsn Hsr st m HI. unfold pack_clone.
     pose proof (message_untouched_l Name Body CMap name_zero cm_empty cm_len pack_name pack_rr q_len rr_len st m) as Hm.
     destruct (tp_bytes Name Body CMap (TP st m)) as [b|] eqn:Eb.
     - destruct (trypack_then_library_packs_l Name Body CMap name_zero cm_empty cm_len pack_name pack_rr q_len rr_len
-                  Hn Hr Hdn Hdr Hzn Hzr st m b HI Eb) as [m' Hm'].
+                  Hn Hr Hdn Hdr Hbn Hbr Hsn Hsr st m b HI Eb) as [m' Hm'].
       rewrite Hm'. cbn. split; [reflexivity|]. intros _. exact Hm.
     - rewrite Hm. pose proof (lpi_same_result m) as H1. pose proof (lpi_message m) as H2.
       destruct (LPI m) as [res m1]. cbn in *. split; assumption.
